@@ -14,14 +14,22 @@ CLAIM = ('Proved in Coq for the model, Numbers naming (NumbersDirect naming: C06
          'files in reader order - parsed infix, archives decompressed - equal everything logged by all runs, or a tail of it '
          "under a cleanup limit; soundness C06_oracle_sound, C06_tail_sound) applied to the implementation's directory snapshots "
          'after every flush and stop, and by the correspondence check (model = implementation on every history). A restart '
-         'theorem for custom time-stamp formats and for histories with cleanup is not proved: partial. Also proved for TimestampsDirect naming over '
-         'sequences of runs, local time or use_utc with any zone offset (C06_restarts_timestampsdirect, '
-         'C06_restarts_timestampsdirect_keep). Their proof found a defect: with append, use_utc and a zone offset other than zero the '
-         'time stamp of the newest file was read back as local time, the newest file was not continued and the names no longer '
-         'sorted in the order of writing; confirmed on the code, repaired (79e01d3), the former counterexample is now a positive '
-         'example (Flw/TsdRestart.v tsd_utc_append_fine) and a corpus case; the histories are generated with zone offsets 0, +1 h, '
-         '-9:30 h and use_utc on/off. ')
-THEOREMS = ["C06_restarts_numbers", "C06_restarts_keep", "C06_restarts_numbersdirect", "C06_restarts_timestamps", "C06_restarts_timestamps_keep", "C06_oracle_sound", "C06_tail_sound", "C06_restarts_timestampsdirect", "C06_restarts_timestampsdirect_keep"]
+         'theorem for custom time-stamp formats, and for histories with cleanup under other namings than Numbers, is not proved: '
+         'partial. Also proved for TimestampsDirect naming over sequences of runs, local time or use_utc with any zone offset '
+         '(C06_restarts_timestampsdirect, C06_restarts_timestampsdirect_keep). Their proof found a defect: with append, use_utc '
+         'and a zone offset other than zero the time stamp of the newest file was read back as local time, the newest file was '
+         'not continued and the names no longer sorted in the order of writing; confirmed on the code, repaired (79e01d3), the '
+         'former counterexample is now a positive example (Flw/TsdRestart.v tsd_utc_append_fine) and a corpus case; the '
+         'histories are generated with zone offsets 0, +1 h, -9:30 h and use_utc on/off. WITH A CLEANUP STRATEGY (proved, '
+         'Numbers naming): after any sequence of runs with one strategy the directory has the shape a single run leaves - '
+         'rCURRENT, the newest n closed files plain, the next m as archives of exactly what was closed under that number - and '
+         'holds a suffix of what all runs wrote (C06_restarts_numbers_cleanup); what a reader finds under a number is still '
+         'found there after further runs, or the cleanup has removed it (C06_restarts_numbers_cleanup_keep); with a strategy per '
+         'run the same holds as long as every strategy keeps at least one file (C06_restarts_numbers_cleanup_varying; with a '
+         'strategy that keeps nothing the numbering restarts and a number is reused - counterexample in '
+         'Flw/NumCleanupRestartEx.v). Observed: a run without append that finds rCURRENT closes it at its first write and cleans '
+         'up at once; a run without a write changes nothing. ')
+THEOREMS = ["C06_restarts_numbers", "C06_restarts_keep", "C06_restarts_numbersdirect", "C06_restarts_timestamps", "C06_restarts_timestamps_keep", "C06_oracle_sound", "C06_tail_sound", "C06_restarts_timestampsdirect", "C06_restarts_timestampsdirect_keep", "C06_restarts_numbers_cleanup", "C06_restarts_numbers_cleanup_keep", "C06_restarts_numbers_cleanup_varying"]
 TRUSTED = ["modelled, not verified: std::fs (open/rename/remove/read_dir), flate2 (gunzip . gzip = id, validated by decompressing every archive), chrono formatting"]
 ASSUMPTIONS = ["no I/O faults, no kill (C19, C11), no foreign files (C14)", "the same naming scheme and cleanup strategy in all runs of a history"]
 RULE = ("1-3 runs per case on one file specification under the virtual clock: append on/off per run, all namings, size/age criteria, "
